@@ -2,7 +2,7 @@
    every threshold t > 0).  The proof does not depend on what star_loop computes: the
    final filtering step establishes the contract for ANY assignment of representatives. *)
 From Coq Require Import NArith ZArith QArith List Bool Lia Arith Permutation.
-From PV Require Import Gen.CloneConst Clone.GroupSpec Clone.GroupSpecProofs Clone.GroupCommon Clone.GroupStar.
+From PV Require Import Gen.GroupConst Clone.GroupSpec Clone.GroupSpecProofs Clone.GroupCommon Clone.GroupStar.
 Import ListNotations.
 
 (* ---------------------------------------------------------------- fragments are NoDup *)
